@@ -35,13 +35,15 @@ var rbVariants = map[string]kit.Reg{
 	"G-single": {Life: "singleton", Outs: []kit.Out{{T: "P2"}}, Group: "g"},
 	"G-scoped": {Life: "scoped", Outs: []kit.Out{{T: "P2"}}, Group: "g"},
 	"C-scoped": {Life: "scoped", Outs: []kit.Out{{T: "P3"}}, Deps: []kit.Dep{{T: "P1"}}},
+	"Bk-singl": {Life: "singleton", Outs: []kit.Out{{T: "P1"}}, Name: "k"},
+	"Ck-scope": {Life: "scoped", In: true, Outs: []kit.Out{{T: "D0"}}, Deps: []kit.Dep{{T: "P1", Key: "k"}}},
 	"U1":       {Life: "singleton", Outs: []kit.Out{{T: "P4"}}},
 	"U2":       {Life: "scoped", Outs: []kit.Out{{T: "P5"}}},
 }
 
 var rbAlphabet = []rbOp{
 	{"add", "A-opt"}, {"add", "A-req"}, {"add", "A-group"}, {"add", "A-trans"}, {"add", "B-single"}, {"add", "B-scoped"}, {"add", "Bk-scope"}, {"add", "G-single"}, {"add", "G-scoped"},
-	{"add", "C-scoped"}, {"add", "U1"}, {"add", "U2"}, {"remove", "P1"}, {"remove", "P4"}, {"remove", "P0"}, {"removekeyed", "P1"}, {"build", ""},
+	{"add", "C-scoped"}, {"add", "Bk-singl"}, {"add", "Ck-scope"}, {"add", "U1"}, {"add", "U2"}, {"remove", "P1"}, {"remove", "P4"}, {"remove", "P0"}, {"removekeyed", "P1"}, {"build", ""},
 }
 
 type rbResult struct {
